@@ -98,9 +98,9 @@ m = {
  "version": 1,
  "setup_cmd": "./check setup",
  "hooks": {"guard": "--cfg sylt_lang_sylt_lang_verif", "enable": "no hooks: every API the checks use is public; the harness links /repo's crates by path and rebuilds them from the working tree", "baseline_off_cmd": "cd /repo && cargo test --workspace --no-fail-fast --offline", "source_commits": [], "add_only": True},
- "engines": [{"name": "svcheck", "path": "harness/checks", "serves_properties": [c["property_id"] for c in checks], "kind_free_text": "Rust: proptest-driven byte tapes decoded with arbitrary::Unstructured into cases, child-process isolation, structural shrinking, replay files, known-findings handling (harness/vcore); GenAST generator/printer/reference interpreter (harness/syltmodel); Lua 5.3-subset interpreter (harness/minilua)"}],
+ "engines": [{"name": "svcheck", "path": "harness/checks", "serves_properties": [c["property_id"] for c in checks], "kind_free_text": "Rust: proptest-driven byte tapes decoded with arbitrary::Unstructured into cases, child-process isolation, structural shrinking, replay files, known-findings handling (harness/vcore); GenAST generator/printer/reference interpreter (harness/syltmodel); Lua 5.3-subset interpreter (harness/minilua)"}, {"name": "libfuzzer", "path": "harness/fuzz", "serves_properties": [c["property_id"] for c in checks], "kind_free_text": "cargo-fuzz / libFuzzer targets fz_cNN = vcore::fuzz_one(check, tape): coverage-guided mutation of the choice tape, same generator and oracle in-target; runs after the random search in every thorough tier (tools/fuzz_phase.sh), artifacts are triaged by `svcheck Cxx thorough --tape FILE` before anything is reported"}],
  "checks": checks,
- "notes": "All checks are property-based testing / fuzzing (generated-input search against an explicit oracle). Exit 0 = held on everything explored, exit 1 + VIOLATION line = violation, exit 2 = infrastructure. Open findings are listed in known_findings.json and printed as KNOWN-FINDING lines; repairs of genuine defects are 'fix:' commits in /repo recorded in the same file.",
+ "notes": "All checks are property-based testing / fuzzing (generated-input search against an explicit oracle). Exit 0 = held on everything explored, exit 1 + VIOLATION line = violation, exit 2 = infrastructure. Open findings are listed in known_findings.json and printed as KNOWN-FINDING lines; repairs of genuine defects are 'fix:' commits in /repo recorded in the same file. Quick tiers are fixed-work (1-30 s each after a warm build); thorough tiers run 10-100x the cases and then a libFuzzer campaign (VERIF_FUZZ_SECS, default 300 s). /verif/seeded holds 60+ seeded changes by independent authors with the checks that catch them (DESIGN.md section 7, seeded/MATRIX.md).",
  "not_applicable": na,
 }
 json.dump(m, open(f"{ROOT}/MANIFEST.json", "w"), indent=1)
